@@ -243,7 +243,15 @@ def run_hypothesis(test, seed, max_examples):
     from hypothesis import seed as hseed
 
     wrapped = hseed(seed)(hyp_settings(max_examples)(test))
-    wrapped()
+    try:
+        wrapped()
+    except HarnessError:
+        raise
+    except BaseException as e:  # noqa
+        # keep the report short: Hypothesis attaches the whole falsifying example as a note
+        tb = "".join(traceback.format_tb(e.__traceback__))
+        lines = [ln for ln in tb.splitlines() if len(ln) < 400]
+        raise HarnessError("exception inside the harness: %s\n%s" % (repr(e)[:800], "\n".join(lines[-30:])))
 
 
 def shard_seed(seed, shard):
